@@ -52,6 +52,7 @@ type ConnRecord struct {
 	Sent       int
 	PeerClosed chan struct{} // closed when the peer closed the socket (read returned EOF/err)
 	Done       chan struct{} // closed when the master finished with the connection
+	Accepted   bool          // a connection was accepted for this record
 	closedAt   time.Time
 }
 
@@ -151,6 +152,9 @@ func (m *Master) acceptLoop(ln net.Listener) {
 		}
 		m.open = append(m.open, c)
 		m.mu.Unlock()
+		rec.mu.Lock()
+		rec.Accepted = true
+		rec.mu.Unlock()
 		go m.serve(c, p, rec)
 	}
 }
